@@ -911,7 +911,8 @@ class ODLParser(PVLParser):
         on numeric values, any others will result in a ValueError.
         """
 
-        if isinstance(value, int) or isinstance(value, float):
+        # (a bool is an int to Python, but TRUE and FALSE are not numbers)
+        if isinstance(value, (int, float)) and not isinstance(value, bool):
             return super().parse_units(value, tokens)
 
         else:
